@@ -243,6 +243,8 @@ func pathCond(c *schema.Ctx, body []ast.Stmt, target ast.Node) (string, bool) {
 				return true // in Init or Cond
 			case *ast.BlockStmt:
 				return find(s.List)
+			case *ast.LabeledStmt:
+				return find([]ast.Stmt{s.Stmt})
 			case *ast.ForStmt:
 				return find(s.Body.List)
 			case *ast.RangeStmt:
@@ -260,8 +262,48 @@ func pathCond(c *schema.Ctx, body []ast.Stmt, target ast.Node) (string, bool) {
 				}
 				return true
 			case *ast.TypeSwitchStmt:
+				// the clause's own test: ok(x.(T)) for its types; the default clause (and every
+				// clause, implicitly) excludes the types of the clauses before it
+				var subject ast.Expr
+				switch a := s.Assign.(type) {
+				case *ast.AssignStmt:
+					if len(a.Rhs) == 1 {
+						if ta, ok := a.Rhs[0].(*ast.TypeAssertExpr); ok {
+							subject = ta.X
+						}
+					}
+				case *ast.ExprStmt:
+					if ta, ok := a.X.(*ast.TypeAssertExpr); ok {
+						subject = ta.X
+					}
+				}
+				test := func(cc *ast.CaseClause) string {
+					var alts []string
+					for _, t := range cc.List {
+						if id, ok := t.(*ast.Ident); ok && id.Name == "nil" {
+							alts = append(alts, c.ExprStr(subject)+" == nil")
+							continue
+						}
+						alts = append(alts, "ok("+c.ExprStr(subject)+".("+c.ExprStr(t)+"))")
+					}
+					if len(alts) == 1 {
+						return alts[0]
+					}
+					return "(" + strings.Join(alts, " || ") + ")"
+				}
 				for _, cl := range s.Body.List {
 					if cc := cl.(*ast.CaseClause); contains(cc) {
+						if subject != nil && c.TypeSwitchConds {
+							if cc.List != nil {
+								conds = append(conds, test(cc))
+							} else {
+								for _, o := range s.Body.List {
+									if oc := o.(*ast.CaseClause); oc.List != nil {
+										conds = append(conds, schema.NegGuard(test(oc)))
+									}
+								}
+							}
+						}
 						return find(cc.Body)
 					}
 				}
